@@ -1,0 +1,27 @@
+//go:build verif
+
+// Package verifhook provides named points between successive durable writes of the node
+// database backends. It is only active when built with the verif tag: the external
+// verification harness installs a function that either blocks (to run a reader at that
+// intermediate durable state) or terminates the process (crash injection).
+package verifhook
+
+import "sync/atomic"
+
+var point atomic.Pointer[func(name string)]
+
+// Set installs the hook function (nil removes it).
+func Set(f func(name string)) {
+	if f == nil {
+		point.Store(nil)
+		return
+	}
+	point.Store(&f)
+}
+
+// Point is called by the backends right after the durable write it is named for.
+func Point(name string) {
+	if f := point.Load(); f != nil {
+		(*f)(name)
+	}
+}
